@@ -780,8 +780,9 @@ def check(ctx):
         'reading of "burst of the CRC-protected region or of the CRC field": the altered bits lie inside one of the two regions',
         'an alteration that changes payload_size_bytes changes the extent the validators check; its rejection is tested, not proved '
         '(no CRC can guarantee it)',
-        'two flipped bits 32 or more positions apart: tested exhaustively on messages <= 64 bytes and sampled on longer ones; proved only for '
-        'distance < 32 (C06_burst_rejected)']
+        'two flipped bits at any distance: proved (C06_two_bit_rejected / C06_two_bit_cross_rejected, from the minimal period 2^32 - 1 of '
+        'the polynomial, C06_polynomial_period) for alterations that leave payload_size_bytes intact; additionally tested exhaustively on '
+        'messages <= 64 bytes and sampled on longer ones']
     ctx.prove(MODULES)
     try:
         run(ctx)
